@@ -405,3 +405,329 @@ pub fn run_uiua_with(src: &str, args: &[Value]) -> Result<Vec<Value>, String> {
         Err(p) => Err(format!("PANIC: {p}")),
     }
 }
+
+// ---------------------------------------------------------------- IR exporter (spine)
+
+use uiua::{Assembly, ImplPrimitive, Node, Primitive, SigNode, Signature};
+
+pub fn coq_sig(s: Signature) -> String {
+    format!("(Sig {} {} {} {})", s.args(), s.outputs(), s.under_args(), s.under_outputs())
+}
+
+/// ids of the primitives that the spine model interprets on integers (coq/Model/Exec.v zsem)
+pub fn prim_id(p: Primitive) -> u64 {
+    use Primitive::*;
+    match p {
+        Identity => 1,
+        Dup => 2,
+        Flip => 3,
+        Pop => 4,
+        Add => 5,
+        Sub => 6,
+        Mul => 7,
+        Neg => 8,
+        Eq => 9,
+        Lt => 10,
+        Gt => 11,
+        Assert => 12,
+        Not => 13,
+        Max => 14,
+        Min => 15,
+        Ne => 16,
+        Le => 17,
+        Ge => 18,
+        Abs => 19,
+        Sign => 20,
+        p => 1000 + Primitive::all().position(|q| q == p).unwrap_or(9999) as u64,
+    }
+}
+
+fn str_id(s: &str) -> u64 {
+    // FNV-1a, folded to 40 bits (ids only need to be stable within a run)
+    let mut h: u64 = 0xcbf29ce484222325;
+    for b in s.bytes() {
+        h ^= b as u64;
+        h = h.wrapping_mul(0x100000001b3);
+    }
+    100000 + (h >> 24)
+}
+
+pub struct Export {
+    pub opaque: usize,
+    pub nodes: usize,
+    pub kinds: std::collections::BTreeMap<String, usize>,
+}
+
+impl Export {
+    pub fn new() -> Self {
+        Export { opaque: 0, nodes: 0, kinds: Default::default() }
+    }
+    fn kind(&mut self, k: &str) {
+        *self.kinds.entry(k.to_string()).or_default() += 1;
+        self.nodes += 1;
+    }
+    pub fn ops(&mut self, ops: &[SigNode]) -> String {
+        let mut s = String::from("[");
+        for (i, sn) in ops.iter().enumerate() {
+            if i > 0 {
+                s.push(';');
+            }
+            write!(s, "({},{})", coq_sig(sn.sig), self.node(&sn.node)).unwrap();
+        }
+        s.push(']');
+        s
+    }
+    pub fn sval(&mut self, v: &Value) -> String {
+        if v.rank() == 0 {
+            let x = match v {
+                Value::Num(a) => Some(a.elements().next().copied().unwrap_or(0.0)),
+                Value::Byte(a) => Some(a.elements().next().copied().unwrap_or(0) as f64),
+                _ => None,
+            };
+            if let Some(x) = x {
+                if x.fract() == 0.0 && x.abs() < 1e15 {
+                    return format!("(SInt ({})%Z)", x as i64);
+                }
+            }
+        }
+        format!("(SOpq {})", str_id(&format!("{v:?}{:?}", v.shape)))
+    }
+    pub fn modk(&mut self, p: &Primitive) -> String {
+        use Primitive::*;
+        match p {
+            Dip => "MDip".into(),
+            Gap => "MGap".into(),
+            On => "MOn".into(),
+            By => "MBy".into(),
+            With => "MWith".into(),
+            Off => "MOff".into(),
+            Above => "MAbove".into(),
+            Below => "MBelow".into(),
+            Both => "MBoth".into(),
+            Fork => "MFork".into(),
+            Bracket => "MBracket".into(),
+            Reach => "MReach".into(),
+            Try => "MTry".into(),
+            Pattern => "MPattern".into(),
+            Case => "MCase".into(),
+            Fill => "MFill".into(),
+            Repeat => "MRepeat".into(),
+            Do => "MDo".into(),
+            Reduce => "MReduce".into(),
+            Scan => "MScan".into(),
+            Fold => "MFold".into(),
+            Rows => "MRows".into(),
+            Each => "MEach".into(),
+            Inventory => "MInventory".into(),
+            Table => "MTable".into(),
+            Tuples => "MTuples".into(),
+            Stencil => "MStencil".into(),
+            Group => "MGroup".into(),
+            Partition => "MPartition".into(),
+            Content => "MContent".into(),
+            Memo => "MMemo".into(),
+            Comptime => "MComptime".into(),
+            Un => "MUn".into(),
+            Anti => "MAnti".into(),
+            Spawn => "MSpawn".into(),
+            Pool => "MPool".into(),
+            Dump => "MDump".into(),
+            Path | Recur | Sys(uiua::SysOp::ReadLines) | Sys(uiua::SysOp::AudioStream) => {
+                self.opaque += 1;
+                format!("(MOther {} None)", prim_id(*p))
+            }
+            p => {
+                self.opaque += 1;
+                let fixed = match p.sig() {
+                    Some(s) if p.modifier_args().is_some() => format!("(Some {})", coq_sig(s)),
+                    _ => "None".into(),
+                };
+                format!("(MOther {} {})", prim_id(*p), fixed)
+            }
+        }
+    }
+    pub fn implmodk(&mut self, p: &ImplPrimitive) -> String {
+        use ImplPrimitive::*;
+        match p {
+            OnSub(n) => format!("(MOnSub {n})"),
+            BySub(n) => format!("(MBySub {n})"),
+            WithSub(n) => format!("(MWithSub {n})"),
+            OffSub(n) => format!("(MOffSub {n})"),
+            DipN(n) => format!("(MDipN {n})"),
+            ReduceDepth(d) => format!("(MReduceDepth {d})"),
+            ReduceContent => "MReduceContent".into(),
+            UnFill => "MUnFill".into(),
+            SidedFill(_) => "MSidedFill".into(),
+            UndoRows => "MUndoRows".into(),
+            UndoInventory => "MUndoInventory".into(),
+            EachSub(_) => "MEachSub".into(),
+            FixMatchRanks => "MFixMatchRanks".into(),
+            UnBracket => "MUnBracket".into(),
+            UnScan => "MUnScan".into(),
+            RepeatWithInverse => "MRepeatWithInverse".into(),
+            RepeatCountConvergence => "MRepeatCountConv".into(),
+            TableSub(_) | SidedTuples(_) | ReduceConjoinInventory => "MHandleSig".into(),
+            BothImpl(sub) | UnBothImpl(sub) => {
+                let reused = sub.side.map(|side| side.n.unwrap_or(1)).unwrap_or(0);
+                let n = sub.num.unwrap_or(2) as usize;
+                format!("(MBothImpl {reused} {n})")
+            }
+            // handled specially by the checker, not modelled: never give them a table signature
+            Astar | AstarFirst | AstarSignLen | AstarTake | AstarPop | PathFirst | PathSignLen
+            | PathTake | PathPop | FoldWhile | SidedStencil(_) | SidedBracket(_) | RowsSub(..)
+            | UndoRowsSub(..) | SplitBy | SplitByScalar | SplitByKeepEmpty | FoldGif => {
+                self.opaque += 1;
+                format!("(MOther {} None)", str_id(&format!("{p:?}")))
+            }
+            p => {
+                self.opaque += 1;
+                let fixed = match (p.args(), p.outputs()) {
+                    (Some(a), Some(o)) => format!("(Some (Sig {a} {o} 0 0))"),
+                    _ => "None".into(),
+                };
+                format!("(MOther {} {})", str_id(&format!("{p:?}")), fixed)
+            }
+        }
+    }
+    pub fn node(&mut self, n: &Node) -> String {
+        match n {
+            Node::Push(v) => {
+                self.kind("Push");
+                format!("(Push {})", self.sval(v))
+            }
+            Node::Prim(p, _) => {
+                self.kind("Prim");
+                match (p.args(), p.outputs()) {
+                    (Some(a), Some(o)) => format!("(Prim {} {a} {o})", prim_id(*p)),
+                    _ => format!("(PrimIndet {})", prim_id(*p)),
+                }
+            }
+            Node::ImplPrim(p, _) => {
+                self.kind("ImplPrim");
+                match (p.args(), p.outputs()) {
+                    (Some(a), Some(o)) => format!("(Prim {} {a} {o})", str_id(&format!("{p:?}"))),
+                    _ => format!("(PrimIndet {})", str_id(&format!("{p:?}"))),
+                }
+            }
+            Node::Run(ns) => {
+                self.kind("Run");
+                let mut s = String::from("(Run [");
+                for (i, x) in ns.iter().enumerate() {
+                    if i > 0 {
+                        s.push(';');
+                    }
+                    s.push_str(&self.node(x));
+                }
+                s.push_str("])");
+                s
+            }
+            Node::Mod(p, args, _) => {
+                self.kind(&format!("Mod:{p:?}"));
+                let m = self.modk(p);
+                format!("(Mod {m} {})", self.ops(args))
+            }
+            Node::ImplMod(p, args, _) => {
+                self.kind(&format!("ImplMod:{}", format!("{p:?}").split('(').next().unwrap_or("")));
+                let m = self.implmodk(p);
+                format!("(Mod {m} {})", self.ops(args))
+            }
+            Node::Call(f, _) => {
+                self.kind("Call");
+                format!("(Call {} {})", uiua::verif::function_index(f), coq_sig(f.sig))
+            }
+            Node::CallGlobal(i, s) => {
+                self.kind("CallGlobal");
+                format!("(CallGlobal {i} {})", coq_sig(*s))
+            }
+            Node::CallMacro { index, sig, .. } => {
+                self.kind("CallMacro");
+                format!("(CallMacro {index} {})", coq_sig(*sig))
+            }
+            Node::BindGlobal { .. } => {
+                self.kind("BindGlobal");
+                "BindGlobal".into()
+            }
+            Node::Array { len, inner, boxed, .. } => {
+                self.kind("Array");
+                format!("(Arr {len} {} {})", self.node(inner), boxed)
+            }
+            Node::Unpack { count, unbox, .. } => {
+                self.kind("Unpack");
+                format!("(Unpack {count} {unbox})")
+            }
+            Node::Switch { branches, sig, under_cond, .. } => {
+                self.kind("Switch");
+                format!("(Switch {} {} {under_cond})", self.ops(branches), coq_sig(*sig))
+            }
+            Node::PushUnder(n, _) => {
+                self.kind("PushUnder");
+                format!("(PushUnder {n})")
+            }
+            Node::CopyToUnder(n, _) => {
+                self.kind("CopyToUnder");
+                format!("(CopyToUnder {n})")
+            }
+            Node::PopUnder(n, _) => {
+                self.kind("PopUnder");
+                format!("(PopUnder {n})")
+            }
+            Node::NoInline(inner) => {
+                self.kind("NoInline");
+                format!("(NoInline {})", self.node(inner))
+            }
+            Node::TrackCaller(inner) => {
+                self.kind("TrackCaller");
+                format!("(TrackCaller {} {})", coq_sig(inner.sig), self.node(&inner.node))
+            }
+            Node::CustomInverse(cust, _) => {
+                self.kind("CustomInverse");
+                let s = match cust.sig() {
+                    Ok(s) => format!("(Some {})", coq_sig(s)),
+                    Err(_) => "None".into(),
+                };
+                match &cust.normal {
+                    Ok(sn) => format!("(CustomInv {s} true {} {})", coq_sig(sn.sig), self.node(&sn.node)),
+                    Err(_) => format!("(CustomInv {s} false (Sig 0 0 0 0) (Run []))"),
+                }
+            }
+            Node::Label(..) => {
+                self.kind("Label");
+                "Label".into()
+            }
+            Node::RemoveLabel(..) => {
+                self.kind("RemoveLabel");
+                "RemoveLabel".into()
+            }
+            Node::Format(parts, _) => {
+                self.kind("Format");
+                format!("(Format {})", parts.len())
+            }
+            Node::MatchFormatPattern(parts, _) => {
+                self.kind("MatchFormat");
+                format!("(MatchFormat {})", parts.len())
+            }
+            Node::Dynamic(_) => {
+                self.kind("Dynamic");
+                format!("(Dynamic {})", coq_sig(n.sig().unwrap_or_default()))
+            }
+            Node::SetOutputComment { .. } => {
+                self.kind("SetOutputComment");
+                "SetOutputComment".into()
+            }
+        }
+    }
+}
+
+/// Compile a source text (no pre-evaluation surprises: caller picks the mode)
+pub fn compile(src: &str, mode: uiua::PreEvalMode) -> Result<Assembly, String> {
+    let r = catch(|| {
+        let mut c = uiua::Compiler::new();
+        c.pre_eval_mode(mode);
+        c.load_str(src).map(|c| c.finish()).map_err(|e| e.to_string())
+    });
+    match r {
+        Ok(Ok(a)) => Ok(a),
+        Ok(Err(e)) => Err(e),
+        Err(p) => Err(format!("PANIC: {p}")),
+    }
+}
